@@ -41,13 +41,14 @@ struct Group {
     min_len: usize,
     max_len: usize,
     div_instr: u64,
+    div_pcs: std::collections::BTreeSet<u64>,
 }
 
 fn flush(out: &mut impl Write, plan: &[PlanRun], g: &Group) {
     let p = &plan[g.first];
     writeln!(
         out,
-        "{{\"row\":\"{}\",\"ri\":{},\"n\":{},\"pub\":\"{}\",\"pi\":{},\"runs\":{},\"distinct\":{},\"min_events\":{},\"max_events\":{},\"div_instr\":{},\"divs\":{}}}",
+        "{{\"row\":\"{}\",\"ri\":{},\"n\":{},\"pub\":\"{}\",\"pi\":{},\"runs\":{},\"distinct\":{},\"min_events\":{},\"max_events\":{},\"div_instr\":{},\"div_pcs\":[{}],\"divs\":{}}}",
         p.row,
         p.ri,
         p.n,
@@ -58,6 +59,7 @@ fn flush(out: &mut impl Write, plan: &[PlanRun], g: &Group) {
         g.min_len,
         g.max_len,
         g.div_instr,
+        g.div_pcs.iter().map(|p| p.to_string()).collect::<Vec<_>>().join(","),
         if g.divs.is_empty() { "null".to_string() } else { format!("[{}]", g.divs.join(",")) }
     )
     .unwrap();
@@ -91,6 +93,7 @@ fn main() {
     let mut group: Option<Group> = None;
     let mut total_lines = 0u64;
     let mut seg_divs = 0u64;
+    let mut seg_div_pcs: std::collections::BTreeSet<u64> = Default::default();
     loop {
         line.clear();
         let n = inp.read_until(b'\n', &mut line).unwrap();
@@ -130,12 +133,14 @@ fn main() {
                 if let Some(g) = &group {
                     flush(&mut out, &plan, g);
                 }
-                group = Some(Group { first: seg, runs: 0, reps: Vec::new(), classes: Default::default(), divs: Vec::new(), min_len: usize::MAX, max_len: 0, div_instr: 0 });
+                group = Some(Group { first: seg, runs: 0, reps: Vec::new(), classes: Default::default(), divs: Vec::new(), min_len: usize::MAX, max_len: 0, div_instr: 0, div_pcs: Default::default() });
             }
             let g = group.as_mut().unwrap();
             g.runs += 1;
             g.div_instr += seg_divs;
             seg_divs = 0;
+            g.div_pcs.extend(seg_div_pcs.iter().copied());
+            seg_div_pcs.clear();
             g.min_len = g.min_len.min(cur.len());
             g.max_len = g.max_len.max(cur.len());
             let mut h = 0xcbf2_9ce4_8422_2325u64;
@@ -202,6 +207,7 @@ fn main() {
             total_lines += 1;
             if kind == 0 && !divs.is_empty() && divs.contains(&addr) {
                 seg_divs += 1;
+                seg_div_pcs.insert(addr);
             }
             cur.push((kind << 62) | ((size & 0x3f) << 56) | (addr & 0x00ff_ffff_ffff_ffff));
         }
